@@ -8,7 +8,7 @@
    ([regs_wf]) and the CFI oracle only returns register values that fit (they went through
    C::Register::try_from in CfiStackWalker). *)
 From Coq Require Import Lia ZArith List.
-From RM Require Import C05.Model C05.Proofs.
+From RM Require Import C05.Model C05.Proofs C05.Driver C05.ProofsModules.
 Import ListNotations.
 Open Scope Z_scope.
 
@@ -138,6 +138,17 @@ Theorem c05_wellformed_mips32 : walker_facts mips32. Proof. exact (walker_facts_
 Print Assumptions c05_wellformed_mips32.
 Theorem c05_wellformed_mips64 : walker_facts mips64. Proof. exact (walker_facts_of_ok mips64 arch_ok_mips64). Qed.
 Print Assumptions c05_wellformed_mips64.
+
+(* a frame's module, when present, covers its lookup address: the lookup the walker uses
+   (MinidumpModuleList::from_modules + module_at_address = C08's range map, here [d_module_at]) only returns
+   a module whose own [base, base + size) contains the address (from c08_lookup_sound) *)
+Theorem c05_module_covers :
+  forall (mods : list modspec) (f : frame) i,
+    Forall (fun m => 0 <= fst (fst m) /\ 0 <= snd (fst m)) mods ->
+    frame_module mods f = Some i ->
+    exists b s y, nth_error mods (Z.to_nat i) = Some (b, s, y) /\ b <= f_instr f < b + s.
+Proof. intros mods f i H E. exact (module_at_covers mods (f_instr f) i H E). Qed.
+Print Assumptions c05_module_covers.
 
 (* ---- the refutations that led to the repairs in /repo (kept checkable: [code_before_fixes]) *)
 Definition w_cfi_never_reads (callee : frame) (_ : option frame) (_ : list Z) : option (regs * list Z) :=
